@@ -75,10 +75,11 @@ def handled_shapes(loop: ast.For, m=None, fn=None) -> set[str]:
             return "hex"
         return NotImplemented
     ok = set()
+    orc_all = miniterp.with_helpers(fn.module.functions, oracle) if fn is not None else oracle
     for shape, val in SHAPE_VALUES.items():
         env = {av: "field", vv: val, dv: {}}
         try:
-            miniterp.exec_body(loop.body, env, oracle)
+            miniterp.exec_body(loop.body, env, orc_all)
         except miniterp.Raised:
             continue
         if "field" in env[dv] and _json_native(env[dv]["field"]):
